@@ -1450,3 +1450,45 @@ def int_try_into(ctx):
 @contract(r'^<Box<.*> as Drop>::drop$|^<Vec<.*> as Drop>::drop$|^<(?:std::sync::)?Arc<.*> as Drop>::drop$')
 def container_drop(ctx):
     return UNIT
+
+
+@contract(r'^<std::slice::Iter<.*> as Iterator>::collect::<Vec<&.*>>$')
+def slice_iter_collect_refs(ctx):
+    """slice.iter().collect::<Vec<&T>>(): references to the remaining elements, in order"""
+    elems = _explicit_elems(ctx, ctx.args[0])
+    if elems is None:
+        return NotImplemented
+    return SeqV.from_items(elems, '&T', 'vec')
+
+
+@contract(r'^<Vec<&.*> as Extend<&.*>>::extend::<&\[.*\]>$|^<Vec<&.*> as Extend<&.*>>::extend::<&Vec<.*>>$')
+def vec_extend_refs_from_slice(ctx):
+    """Vec<&T>::extend(&[T]): append a reference to every element of the slice"""
+    ex, st = ctx.ex, ctx.st
+    v, loc = seq_loc(ex, st, ctx.args[0])
+    src, sloc = seq_loc(ex, st, ctx.args[1])
+    if not (isinstance(v, SeqV) and v.items is not None and isinstance(src, SeqV) and src.items is not None) or loc is None or sloc is None:
+        return NotImplemented
+    new = [Ref(sloc[0], sloc[1] + (('i', BV(i, 64)),)) for i in range(len(src.items))]
+    ex.store(st, loc[0], loc[1], SeqV.from_items(list(v.items) + new, v.elem_ty, v.kind))
+    return UNIT
+
+
+@contract(r'^core::slice::<impl \[&(?:std::string::)?String\]>::contains$|^core::slice::<impl \[(?:std::string::)?String\]>::contains$|^core::slice::<impl \[&str\]>::contains$')
+def slice_contains_string(ctx):
+    """[&String]::contains(&x): some element equals x (string equality, exact within eq_bound)"""
+    from contracts import bytes_equal
+    ex, st = ctx.ex, ctx.st
+    v, loc = seq_loc(ex, st, ctx.args[0])
+    if not (isinstance(v, SeqV) and v.items is not None):
+        return NotImplemented
+    x = ex.deref(st, ctx.args[1])
+    if not isinstance(x, Bytes):
+        return NotImplemented
+    terms = []
+    for e in v.items:
+        b = ex.deref(st, e) if isinstance(e, Ref) else e
+        if not isinstance(b, Bytes):
+            return NotImplemented
+        terms.append(bytes_equal(ex, st, b, x))
+    return Bool(simp(z3.Or(terms)) if terms else z3.BoolVal(False))
